@@ -24,6 +24,7 @@
 From Coq Require Import List.
 From PV Require Import Lib.Py Model.Graph.
 From PV Require Import Proofs.C01Base Proofs.C01Inv Proofs.C01.
+From PV Require Import Proofs.C01Weak Proofs.C01Alias.
 Import ListNotations.
 
 (* the invariant holds initially and is preserved by every admissible operation *)
@@ -96,3 +97,115 @@ Theorem C01_guard_sound : forall a b, scalar_exact a = true -> scalar_exact b = 
   py_eq a b = true -> same_type a b = true -> a = b.
 Proof. exact scalar_same. Qed.
 Print Assumptions C01_guard_sound.
+
+(* ---------------------------------------------------------------------------
+   Whole-column references (S!B:B) and the WEAK non-blank condition.
+
+   Vocabulary (Proofs/C01Weak.v, C01Alias.v):
+     args_ok W n vals       vals has one value per precedent of n, and the value
+                            of a formula/range precedent is not blank — the only
+                            argument lists machine and specification hand to n
+     sem_nonblank_weak      sem n vals <> VNone on those lists (side condition
+                            (d'), implied by sem_nonblank)
+     alias_node W sem r p   r is a non-input node whose only precedent is the
+                            formula/range node p and sem r [v] = v: the reference
+                            cell S!B:B (=_REF_("S!B1:B4")) of the bounded range
+                            node p = S!B1:B4 (Model/GraphExpr.v FAlias)
+     nonblank_except_alias  every formula/range node is an alias_node or never
+                            computes a blank                                   *)
+(* a workbook with a reference node is outside the reach of the theorems above … *)
+Theorem C01_alias_not_strong : forall W sem r p, alias_node W sem r p -> ~ sem_nonblank W sem.
+Proof. exact alias_not_strong. Qed.
+Print Assumptions C01_alias_not_strong.
+
+(* … but inside the reach of the ones below *)
+Theorem C01_alias_weak : forall W sem, nonblank_except_alias W sem -> sem_nonblank_weak W sem.
+Proof. exact alias_weak. Qed.
+Print Assumptions C01_alias_weak.
+
+Theorem C01_nonblank_weaken : forall W sem, sem_nonblank W sem -> sem_nonblank_weak W sem.
+Proof. exact nonblank_weaken. Qed.
+Print Assumptions C01_nonblank_weaken.
+
+Theorem C01_invariant_weak : forall W sem, wf W -> sem_nonblank_weak W sem -> stored_ok W sem ->
+  Inv W sem (init W) /\
+  forall s o, Inv W sem s -> ok_op W s o -> Inv W sem (fst (step W sem s o)).
+Proof. exact invariant_weak. Qed.
+Print Assumptions C01_invariant_weak.
+
+(* PARTIAL (C01_coherent): C01_coherent_partial with side condition (d) weakened
+   to (d'); still missing for the full statement: (c) [late_ok] and (d')
+   (Refuted/C01_stored_late_build.v, C01_blank_result.v — the blank result of
+   =A1:A2 arises on an admissible argument list) *)
+Theorem C01_coherent_weak_partial : forall W sem, wf W -> sem_nonblank_weak W sem ->
+  stored_ok W sem -> inputs_exact W (wb_inp0 W) ->
+  forall h, ok_history W sem (ok_op W) (init W) h ->
+    snd (run W sem (init W) h) = run_spec W sem (wb_inp0 W) h.
+Proof. exact coherent_weak. Qed.
+Print Assumptions C01_coherent_weak_partial.
+
+Theorem C01_coherent_pointwise_weak_partial : forall W sem, wf W -> sem_nonblank_weak W sem ->
+  stored_ok W sem -> inputs_exact W (wb_inp0 W) ->
+  forall h n, ok_history W sem (ok_op W) (init W) h -> n < wb_n W ->
+    let s := fst (run W sem (init W) h) in
+    Inv W sem s /\ snd (step W sem s (Evaluate n)) = spec W sem (st_cache s) n.
+Proof. exact coherent_pointwise_weak. Qed.
+Print Assumptions C01_coherent_pointwise_weak_partial.
+
+Theorem C01_coherent_nodata_weak_partial : forall W sem, wf W -> sem_nonblank_weak W sem ->
+  (forall n, wb_stored W n = VNone) -> inputs_exact W (wb_inp0 W) ->
+  forall h, ok_history W sem (ok_op_free W) (init W) h ->
+    snd (run W sem (init W) h) = run_spec W sem (wb_inp0 W) h.
+Proof. exact coherent_nodata_weak. Qed.
+Print Assumptions C01_coherent_nodata_weak_partial.
+
+Theorem C01_coherent_stored_weak_partial : forall W sem, wf W -> sem_nonblank_weak W sem ->
+  stored_consistent W sem -> inputs_exact W (wb_inp0 W) ->
+  forall h, ok_history W sem (ok_op_built W) (init W) h ->
+    snd (run W sem (init W) h) = run_spec W sem (wb_inp0 W) h.
+Proof. exact coherent_stored_weak. Qed.
+Print Assumptions C01_coherent_stored_weak_partial.
+
+(* a node of range kind that enters the model gets its value when the graph is
+   built (range_todos of _process_gen_graph) *)
+Theorem C01_build_range_valued : forall W sem, wf W -> sem_nonblank_weak W sem ->
+  forall s n m, Inv W sem s -> n < wb_n W -> wb_range W m = true ->
+    st_built s m = false -> st_built (build W sem s n) m = true ->
+    st_cache (build W sem s n) m <> VNone.
+Proof. exact build_range_valued. Qed.
+Print Assumptions C01_build_range_valued.
+
+(* the from-scratch value of S!B:B is the from-scratch value of S!B1:B4 *)
+Theorem C01_alias_spec : forall W sem, wf W -> forall r p inp, alias_node W sem r p ->
+  spec W sem inp r = spec W sem inp p.
+Proof. exact alias_spec. Qed.
+Print Assumptions C01_alias_spec.
+
+(* in every state of the invariant a built reference node that holds a value
+   holds the cached value of the bounded range node (built, not empty), and it
+   is the from-scratch value under the current inputs *)
+Theorem C01_alias_cache : forall W sem, wf W -> forall s r p, Inv W sem s -> alias_node W sem r p ->
+  st_built s r = true -> st_cache s r <> VNone ->
+  st_built s p = true /\ st_cache s p = st_cache s r /\
+  st_cache s r = spec W sem (st_cache s) p.
+Proof. exact alias_cache. Qed.
+Print Assumptions C01_alias_cache.
+
+(* … and an empty bounded range node means an empty reference node (what a
+   write to a member leaves behind; repair 347fec5) *)
+Theorem C01_alias_reset : forall W sem s r p, Inv W sem s -> alias_node W sem r p ->
+  st_built s r = true -> st_cache s p = VNone -> st_cache s r = VNone.
+Proof. exact alias_reset. Qed.
+Print Assumptions C01_alias_reset.
+
+(* the reference node holds the bounded range's value right after the build
+   that brings it into the model (repair f35c77a) *)
+Theorem C01_alias_built_valued : forall W sem, wf W -> sem_nonblank_weak W sem ->
+  forall s n r p, stored_ok W sem -> Inv W sem s -> n < wb_n W ->
+    alias_node W sem r p -> wb_range W r = true ->
+    st_built s r = false -> st_built (build W sem s n) r = true ->
+    let s' := build W sem s n in
+    st_cache s' r <> VNone /\ st_cache s' r = st_cache s' p /\
+    st_cache s' r = spec W sem (st_cache s) p.
+Proof. exact alias_built_valued. Qed.
+Print Assumptions C01_alias_built_valued.
